@@ -78,13 +78,13 @@ CHECKS = {
         note="Bounded: 2 keys, 2 origins, 2-3 replicas, <= 3 operations, <= 2 merge/repair transitions; distinct timestamps."),
     "C05": dict(
         engine="tlc + h-crdt",
-        technique="TLC exhaustive model checking of MC_OrswotMerge (DiffSpec oracle, one-exchange and mutual-repair invariants) + replay on real OrSWotSet replicas",
+        technique="TLC exhaustive model checking of MC_OrswotMerge (DiffSpec oracle, one-exchange and mutual-repair invariants) + replay on real OrSWotSet replicas + Cluster.tla without direct replication (every difference repaired by exchanges) replayed on real nodes through the real poller code",
         text=("For every ordered pair of reachable replica states TLC compares the faithful diff() with DiffSpec written from the statement, "
               "checks that applying the difference (removals first / modifications first, the way the keyspace actor applies batches) leaves "
               "nothing to fetch and that mutual repair equalises live ids; the harness repeats all three clauses with the real diff(), "
               "will_apply() and mutators on every distinct state."),
         design_ref="DESIGN.md section 7 C05",
-        note="Same bounds as C03. The actor/poller level of the exchange is covered by the Keyspace/Cluster models."),
+        note="Same bounds as C03. The poller level of the exchange (handle_removals / handle_modified / begin_keyspace_sync) is bound by the cluster component: behaviours without any direct replication replayed on real nodes in the three modes described for C01; every diff a real keyspace actor answered is validated against DiffSpec by Trace_KeyspaceActor.tla."),
     "C12": dict(
         engine="tlc + h-rpc",
         technique="TLC model checking of a toy bit-level framing model + TLC trace validation of exhaustive per-frame mutations run through the real DataView::using, a real server and a real client",
@@ -94,21 +94,21 @@ CHECKS = {
               "extension, feeds them to the real DataView::using (catch_unwind), posts damaged frames to a real server counting handler runs, and "
               "round-trips values and handler errors through the real client; Trace_RpcFrame.tla validates every event against the rule."),
         design_ref="DESIGN.md section 7 C12",
-        note="Per-frame exhaustive up to 2 KiB (4 KiB thorough), sampled above; value space sampled. Memory safety itself is not observed (section 11)."),
+        note="Per-frame exhaustive up to 2 KiB (4 KiB thorough), sampled above; value space sampled; message types include archives of alignment 1 and 2 with sizes that are not a multiple of four. Memory safety itself is not observed (section 11)."),
     "C13": dict(
         engine="tlc + h-rpc",
         technique="TLC exhaustive enumeration of add/remove histories on RpcRegistry.tla + replay of every history on a real Server with real clients",
         text=("RpcRegistry.tla models services -> handler keys and the handler table with add/remove; TLC checks served <=> registered after every step "
-              "for all 6^L histories over three services (two sharing a message type, one with two) and emits every history with the oracle's expectation "
+              "for all 7^L histories over four service types (two sharing a message type, one with two, one registering under another's name) and emits every history with the oracle's expectation "
               "per step; each is replayed on a fresh real Server on loopback and all six (service, message) pairs are probed after every step."),
         design_ref="DESIGN.md section 7 C13",
-        note="L = 4 quick / 6 thorough. Handler-key hash collisions are outside the model."),
+        note="L = 4 quick / 5 thorough; a second run adds requests held inside their handler. Handler-key hash collisions are outside the model."),
     "C15": dict(
         engine="tlc + h-node",
         technique="TLC enumeration (exhaustive + simulated) of membership-update/selection histories, replayed on the real selector actor, outcomes validated by TLC against the postcondition Allowed of Selector.tla",
         text=("Selector.tla states Required(layout, level) and Allowed(result) from the property statement (count-only); TLC enumerates every history "
               "of SetNodes/Select steps up to the length bound over layouts of up to 4 data centres x 4 nodes (and simulates longer ones); each history "
-              "is replayed on a fresh real selector actor, and every distinct (live layout, level, outcome) is validated by Trace_Selector.tla, which "
+              "is replayed on a fresh real selector actor with the local node in four different positions (rotated member lists, local data centre sorting first or last), and every distinct (live layout, level, outcome) is validated by Trace_Selector.tla, which "
               "reports every outcome that is not allowed."),
         design_ref="DESIGN.md section 7 C15",
         note="History-dependence lives in the implementation (cursors, cache, stale data centres), which is why histories are enumerated although the oracle is history-free. Random DC choice sampled by repetition."),
@@ -138,7 +138,7 @@ CHECKS = {
               "agreement invariant in every reachable state. Every transition is re-executed on a real actor put into the transition's source state; "
               "the set (Serialize reply) and storage (iter_metadata/get incl. bytes) are read back and must describe the same thing."),
         design_ref="DESIGN.md section 7 C02",
-        note="Bounds: 2 keys, 1-2 origins, 3-4 time values, 2-3 requests, bulk size 2. MemStore behind the fault wrapper; backends' own fidelity is C17."),
+        note="Bounds: 2-4 keys, 1-2 origins, 2-4 time values, 2-5 requests, bulk size 2-3, one configuration starting on a storage that already holds tombstones; failed bulk calls report their successful ids in no particular order. MemStore behind the fault wrapper; backends' own fidelity is C17."),
     "C07": dict(
         engine="tlc + h-ec",
         technique="TLC exhaustive model checking of Keyspace.tla with crash points after and inside requests + edge-complete replay (real group abandoned, load_states_from_storage on the same storage)",
@@ -163,7 +163,7 @@ CHECKS = {
               "2..8 tasks on current-thread and multi-thread runtimes; caller-side start/end events and actor-side hook events share one sequence "
               "number and Trace_ClockActor.tla re-checks the three clauses from sound order facts only."),
         design_ref="DESIGN.md section 7 C11",
-        note="Real schedules are sampled (seeded), the model's are exhaustive for its scripts. HLC.tla itself is bound to the code by C09."),
+        note="Real schedules are sampled (seeded), the model's are exhaustive for its scripts; two directed runs fill the clock's channel before a registration, three cross the actor's back-pressure limit with the clock ahead of the wall clock. HLC.tla itself is bound to the code by C09."),
     "C18": dict(
         engine="tlc + h-ec",
         technique="TLC exhaustive model checking of KeyspaceGroup.tla (steps of get_or_create_keyspace interleaved) + TLC trace validation of concurrent first-use rounds on the real group",
@@ -175,7 +175,7 @@ CHECKS = {
         note="The current-thread rounds reproduce the double-creation deterministically on the pinned code; multi-thread rounds are a sample."),
     "C01": dict(
         engine="tlc + h-ec",
-        technique="TLC exhaustive model checking of small Cluster.tla configs + TLC simulation of larger ones, every converged behaviour replayed on real nodes (real KeyspaceGroup/Clock/services over loopback RPC)",
+        technique="TLC exhaustive model checking of small Cluster.tla configs + TLC simulation of larger ones, every converged behaviour replayed on real nodes (real KeyspaceGroup/Clock/services over loopback RPC) step by step, with whole exchanges run by the real poller code, and with real poller rounds using each node's keyspace tracker; TLC trace validation of every keyspace actor of those nodes",
         text=("Cluster.tla composes the actor/set semantics (Actor.tla, Orswot.tla) into N nodes with direct and batch replication over a lossy, duplicating, "
               "reordering network and pairwise anti-entropy whose steps (GetState, Diff, removal half, Fetch, modification half) are independently enabled; "
               "the invariant says that once nothing is pending and every ordered pair completed an exchange started after the last operation, every node "
@@ -183,7 +183,7 @@ CHECKS = {
               "behaviour is replayed step by step on real components and every node's reads (ids, timestamps, bytes) and set/storage agreement are compared "
               "with the specification's expectation."),
         design_ref="DESIGN.md section 7 C01",
-        note="Exhaustive only for small bounds; simulation samples the rest. The keyspace-timestamp tracker of the poller and the distributor's aggregation loop are not modelled."),
+        note="Exhaustive only for small bounds; simulation samples the rest. The poller's keyspace tracker is modelled (WithTracker) and bound through real poller rounds; the distributor's aggregation loop has its own specification (Distributor.tla, see C06). The progress watcher of begin_keyspace_sync polls every 2 ms in these runs (guarded hook)."),
     "C06": dict(
         engine="tlc + h-ec",
         technique="TLC exhaustive model checking of Consistency.tla + TLC trace validation of calls made through the public API of real loopback clusters with failing replicas",
@@ -192,7 +192,7 @@ CHECKS = {
               "membership, selector, RPC, distributor, poller) are driven through the public handle for every level x kind x refusing subset; each call's "
               "outcome and every node's storage right after it are validated by Trace_Consistency.tla against the same Required()."),
         design_ref="DESIGN.md section 7 C06",
-        note="Layouts up to 5 nodes / 2-3 data centres. Lost replies only in the model. Timing-dependent facts are polled, not asserted at an instant."),
+        note="Layouts up to 5 nodes / 2-3 data centres. Lost replies only in the model. Timing-dependent facts are polled, not asserted at an instant. A few calls per cluster are made while one replica answers later than the advertised timeout. Inside the same clusters the task distributors (Distributor.tla) and keyspace actors are trace-validated; differences there are reported as drift, not as C06 verdicts."),
     "C14": dict(
         engine="tlc + h-sim",
         technique="TLC exhaustive model checking of RpcNet.tla + execution of the model's external schedules (and random ones) against the real client/server in a turmoil simulation, outcomes validated by TLC",
